@@ -113,14 +113,16 @@ func init() {
 	})
 	reg(hpkg+"verifDrain", func(m *Machine, _ *frame, _ token.Pos, _ *ssa.Function, a []Value) Value {
 		me := m.cur
+		me.inDrain = true
 		m.block(func() bool {
 			for _, t := range m.threads {
-				if t != me && m.runnable(t) {
+				if t != me && !t.inDrain && m.runnable(t) {
 					return false
 				}
 			}
 			return true
 		}, "verifDrain")
+		me.inDrain = false
 		return nil
 	})
 	reg(hpkg+"verifYield", func(m *Machine, _ *frame, _ token.Pos, _ *ssa.Function, a []Value) Value {
